@@ -181,15 +181,16 @@ theorem inv_reachable (e : Elem α β σ) (Inv : σ → Prop) (h0 : Inv e.init)
     (hstep : ∀ s i, Inv s → Inv (e.step s i)) (ins : List (In α)) : Inv (e.runFrom e.init ins) :=
   inv_runFrom e Inv hstep ins e.init h0
 
-/-- **Window lifting.**  Let `cnt` be an additive count along runs (handshakes, deliveries).  If every window of
-    exactly `K` cooperative cycles from an invariant state counts at least one, then `n * K` cooperative
-    cycles count at least `n`: the count grows without bound. -/
+/-- **Window lifting.**  Let `cnt` be an additive count along runs (handshakes, deliveries) and `C` the
+    cooperation assumption on a cycle (`Coop`, possibly strengthened, e.g. "and the gate is enabled").  If every
+    window of exactly `K` cooperative cycles from an invariant state counts at least one, then `n * K`
+    cooperative cycles count at least `n`: the count grows without bound. -/
 theorem count_ge_of_window (e : Elem α β σ) (Inv : σ → Prop) (hstep : ∀ s i, Inv s → Inv (e.step s i))
-    (cnt : σ → List (In α) → Nat)
+    (C : In α → Prop) (cnt : σ → List (In α) → Nat)
     (hadd : ∀ s a b, cnt s (a ++ b) = cnt s a + cnt (e.runFrom s a) b)
     (K : Nat)
-    (hwin : ∀ s ins, Inv s → (∀ i ∈ ins, Coop i) → ins.length = K → 1 ≤ cnt s ins) :
-    ∀ (n : Nat) (s : σ) (ins : List (In α)), Inv s → (∀ i ∈ ins, Coop i) → n * K ≤ ins.length →
+    (hwin : ∀ s ins, Inv s → (∀ i ∈ ins, C i) → ins.length = K → 1 ≤ cnt s ins) :
+    ∀ (n : Nat) (s : σ) (ins : List (In α)), Inv s → (∀ i ∈ ins, C i) → n * K ≤ ins.length →
       n ≤ cnt s ins := by
   intro n
   induction n with
@@ -212,61 +213,212 @@ theorem count_ge_of_window (e : Elem α β σ) (Inv : σ → Prop) (hstep : ∀ 
 
 /-- Deliveries grow without bound: instance of `count_ge_of_window` for `delivered`. -/
 theorem delivered_ge_of_window (e : Elem α β σ) (Inv : σ → Prop) (hstep : ∀ s i, Inv s → Inv (e.step s i))
-    (K : Nat)
-    (hwin : ∀ s ins, Inv s → (∀ i ∈ ins, Coop i) → ins.length = K → 1 ≤ (e.delivered s ins).length)
-    (n : Nat) (s : σ) (ins : List (In α)) (hs : Inv s) (hc : ∀ i ∈ ins, Coop i) (hlen : n * K ≤ ins.length) :
+    (C : In α → Prop) (K : Nat)
+    (hwin : ∀ s ins, Inv s → (∀ i ∈ ins, C i) → ins.length = K → 1 ≤ (e.delivered s ins).length)
+    (n : Nat) (s : σ) (ins : List (In α)) (hs : Inv s) (hc : ∀ i ∈ ins, C i) (hlen : n * K ≤ ins.length) :
     n ≤ (e.delivered s ins).length :=
-  count_ge_of_window e Inv hstep (fun s ins => (e.delivered s ins).length)
+  count_ge_of_window e Inv hstep C (fun s ins => (e.delivered s ins).length)
     (by intro s a b; simp [delivered_append]) K hwin n s ins hs hc hlen
 
 /-- Handshakes grow without bound: instance of `count_ge_of_window` for `hsCount`. -/
 theorem hsCount_ge_of_window (e : Elem α β σ) (Inv : σ → Prop) (hstep : ∀ s i, Inv s → Inv (e.step s i))
-    (K : Nat)
-    (hwin : ∀ s ins, Inv s → (∀ i ∈ ins, Coop i) → ins.length = K → 1 ≤ e.hsCount s ins)
-    (n : Nat) (s : σ) (ins : List (In α)) (hs : Inv s) (hc : ∀ i ∈ ins, Coop i) (hlen : n * K ≤ ins.length) :
+    (C : In α → Prop) (K : Nat)
+    (hwin : ∀ s ins, Inv s → (∀ i ∈ ins, C i) → ins.length = K → 1 ≤ e.hsCount s ins)
+    (n : Nat) (s : σ) (ins : List (In α)) (hs : Inv s) (hc : ∀ i ∈ ins, C i) (hlen : n * K ≤ ins.length) :
     n ≤ e.hsCount s ins :=
-  count_ge_of_window e Inv hstep e.hsCount (hsCount_append e) K hwin n s ins hs hc hlen
+  count_ge_of_window e Inv hstep C e.hsCount (hsCount_append e) K hwin n s ins hs hc hlen
 
-/-! ### The three C04 statements about one element, quantified over every reachable state -/
+/-- Sink handshakes grow without bound: instance of `count_ge_of_window` for `accepted`. -/
+theorem accepted_ge_of_window (e : Elem α β σ) (Inv : σ → Prop) (hstep : ∀ s i, Inv s → Inv (e.step s i))
+    (C : In α → Prop) (K : Nat)
+    (hwin : ∀ s ins, Inv s → (∀ i ∈ ins, C i) → ins.length = K → 1 ≤ (e.accepted s ins).length)
+    (n : Nat) (s : σ) (ins : List (In α)) (hs : Inv s) (hc : ∀ i ∈ ins, C i) (hlen : n * K ≤ ins.length) :
+    n ≤ (e.accepted s ins).length :=
+  count_ge_of_window e Inv hstep C (fun s ins => (e.accepted s ins).length)
+    (by intro s a b; simp [accepted_append]) K hwin n s ins hs hc hlen
+
+/-! #### Windows from a decreasing measure -/
+
+/-- **Measure lemma.**  `now s i` counts the events of interest in one cycle (`cnt` sums it).  If in every
+    cooperative cycle from an invariant state either an event happens or the measure `μ` strictly decreases, then
+    every window of `n + 1` cooperative cycles from a state with `μ ≤ n` contains an event. -/
+theorem window_of_measure (e : Elem α β σ) (Inv : σ → Prop) (hstep : ∀ s i, Inv s → Inv (e.step s i))
+    (C : In α → Prop) (now : σ → In α → Nat) (cnt : σ → List (In α) → Nat)
+    (hcnt : ∀ s i is, cnt s (i :: is) = now s i + cnt (e.step s i) is)
+    (μ : σ → Nat)
+    (hdec : ∀ s i, Inv s → C i → 1 ≤ now s i ∨ μ (e.step s i) < μ s) :
+    ∀ (n : Nat) (s : σ) (ins : List (In α)), Inv s → μ s ≤ n → (∀ i ∈ ins, C i) → ins.length = n + 1 →
+      1 ≤ cnt s ins := by
+  intro n
+  induction n with
+  | zero =>
+    intro s ins hs hμ hc hlen
+    match ins, hlen with
+    | [i], _ =>
+      rw [hcnt]
+      rcases hdec s i hs (hc i (by simp)) with h | h
+      · omega
+      · omega
+  | succ n ih =>
+    intro s ins hs hμ hc hlen
+    match ins, hlen with
+    | i :: is, hl =>
+      rw [hcnt]
+      rcases hdec s i hs (hc i (by simp)) with h | h
+      · omega
+      · have := ih (e.step s i) is (hstep s i hs) (by omega) (fun j hj => hc j (by simp [hj]))
+          (by simpa using hl)
+        omega
+
+/-- Delivery window from a measure bounded by `B` on invariant states: `K' = B + 1`. -/
+theorem del_window_of_measure (e : Elem α β σ) (Inv : σ → Prop) (hstep : ∀ s i, Inv s → Inv (e.step s i))
+    (C : In α → Prop) (μ : σ → Nat) (B : Nat) (hB : ∀ s, Inv s → μ s ≤ B)
+    (hdec : ∀ s i, Inv s → C i → 1 ≤ (e.delNow s i).length ∨ μ (e.step s i) < μ s)
+    (s : σ) (ins : List (In α)) (hs : Inv s) (hc : ∀ i ∈ ins, C i) (hlen : ins.length = B + 1) :
+    1 ≤ (e.delivered s ins).length :=
+  window_of_measure e Inv hstep C (fun s i => (e.delNow s i).length) (fun s ins => (e.delivered s ins).length)
+    (by intro s i is; simp [delivered]) μ hdec B s ins hs (hB s hs) hc hlen
+
+/-- Sink-handshake window from a measure bounded by `B`. -/
+theorem acc_window_of_measure (e : Elem α β σ) (Inv : σ → Prop) (hstep : ∀ s i, Inv s → Inv (e.step s i))
+    (C : In α → Prop) (μ : σ → Nat) (B : Nat) (hB : ∀ s, Inv s → μ s ≤ B)
+    (hdec : ∀ s i, Inv s → C i → 1 ≤ (e.accNow s i).length ∨ μ (e.step s i) < μ s)
+    (s : σ) (ins : List (In α)) (hs : Inv s) (hc : ∀ i ∈ ins, C i) (hlen : ins.length = B + 1) :
+    1 ≤ (e.accepted s ins).length :=
+  window_of_measure e Inv hstep C (fun s i => (e.accNow s i).length) (fun s ins => (e.accepted s ins).length)
+    (by intro s i is; simp [accepted]) μ hdec B s ins hs (hB s hs) hc hlen
+
+/-! ### The C04 statements about one element, quantified over every reachable state -/
 
 /-- **Handshake contract.**  From every state reachable from reset (by *any* inputs `pre`), along every
     continuation `ins` on which the producer keeps the contract, the element keeps it on its source. -/
 def KeepsContract (e : Elem α β σ) : Prop :=
   ∀ pre ins : List (In α), StableIn e (e.runFrom e.init pre) ins → StableOut e (e.runFrom e.init pre) ins
 
-/-- **No deadlock.**  From every reachable state, `n * K` cooperative cycles (valid = 1, ready = 1, arbitrary
-    tokens) contain at least `n` handshakes (sink or source): some handshake in every window of `K` cycles. -/
-def ProgressWithin (e : Elem α β σ) (K : Nat) : Prop :=
-  ∀ pre ins : List (In α), (∀ i ∈ ins, Coop i) → ∀ n, n * K ≤ ins.length →
+/-- **No deadlock** (under the cooperation assumption `C` on every cycle).  From every reachable state, `n * K`
+    cooperative cycles contain at least `n` handshakes (sink or source): one in every window of `K` cycles. -/
+def ProgressWithinC (e : Elem α β σ) (C : In α → Prop) (K : Nat) : Prop :=
+  ∀ pre ins : List (In α), (∀ i ∈ ins, C i) → ∀ n, n * K ≤ ins.length →
     n ≤ e.hsCount (e.runFrom e.init pre) ins
 
 /-- **No livelock.**  From every reachable state, `n * K` cooperative cycles deliver at least `n` tokens at the
     source: deliveries grow without bound, at least one every `K` cycles. -/
-def DeliversWithin (e : Elem α β σ) (K : Nat) : Prop :=
-  ∀ pre ins : List (In α), (∀ i ∈ ins, Coop i) → ∀ n, n * K ≤ ins.length →
+def DeliversWithinC (e : Elem α β σ) (C : In α → Prop) (K : Nat) : Prop :=
+  ∀ pre ins : List (In α), (∀ i ∈ ins, C i) → ∀ n, n * K ≤ ins.length →
     n ≤ (e.delivered (e.runFrom e.init pre) ins).length
+
+/-- The sink is served: from every reachable state, `n * K` cooperative cycles accept at least `n` tokens. -/
+def AcceptsWithinC (e : Elem α β σ) (C : In α → Prop) (K : Nat) : Prop :=
+  ∀ pre ins : List (In α), (∀ i ∈ ins, C i) → ∀ n, n * K ≤ ins.length →
+    n ≤ (e.accepted (e.runFrom e.init pre) ins).length
+
+/-- `C = Coop`: valid = 1 and ready = 1 in every cycle, arbitrary tokens. -/
+abbrev ProgressWithin (e : Elem α β σ) (K : Nat) : Prop := ProgressWithinC e Coop K
+abbrev DeliversWithin (e : Elem α β σ) (K : Nat) : Prop := DeliversWithinC e Coop K
+abbrev AcceptsWithin (e : Elem α β σ) (K : Nat) : Prop := AcceptsWithinC e Coop K
 
 theorem keepsContract_of_stepStable {e : Elem α β σ} {Inv : σ → Prop} (h : StepStable e Inv)
     (h0 : Inv e.init) : KeepsContract e :=
   fun pre ins hin => stable_of_step h _ (inv_reachable e Inv h0 h.inv_step pre) ins hin
 
 theorem progressWithin_of_window (e : Elem α β σ) (Inv : σ → Prop) (h0 : Inv e.init)
-    (hstep : ∀ s i, Inv s → Inv (e.step s i)) (K : Nat)
-    (hwin : ∀ s ins, Inv s → (∀ i ∈ ins, Coop i) → ins.length = K → 1 ≤ e.hsCount s ins) :
-    ProgressWithin e K :=
+    (hstep : ∀ s i, Inv s → Inv (e.step s i)) {C : In α → Prop} (K : Nat)
+    (hwin : ∀ s ins, Inv s → (∀ i ∈ ins, C i) → ins.length = K → 1 ≤ e.hsCount s ins) :
+    ProgressWithinC e C K :=
   fun pre ins hc n hn =>
-    hsCount_ge_of_window e Inv hstep K hwin n _ ins (inv_reachable e Inv h0 hstep pre) hc hn
+    hsCount_ge_of_window e Inv hstep C K hwin n _ ins (inv_reachable e Inv h0 hstep pre) hc hn
 
 theorem deliversWithin_of_window (e : Elem α β σ) (Inv : σ → Prop) (h0 : Inv e.init)
-    (hstep : ∀ s i, Inv s → Inv (e.step s i)) (K : Nat)
-    (hwin : ∀ s ins, Inv s → (∀ i ∈ ins, Coop i) → ins.length = K → 1 ≤ (e.delivered s ins).length) :
-    DeliversWithin e K :=
+    (hstep : ∀ s i, Inv s → Inv (e.step s i)) {C : In α → Prop} (K : Nat)
+    (hwin : ∀ s ins, Inv s → (∀ i ∈ ins, C i) → ins.length = K → 1 ≤ (e.delivered s ins).length) :
+    DeliversWithinC e C K :=
   fun pre ins hc n hn =>
-    delivered_ge_of_window e Inv hstep K hwin n _ ins (inv_reachable e Inv h0 hstep pre) hc hn
+    delivered_ge_of_window e Inv hstep C K hwin n _ ins (inv_reachable e Inv h0 hstep pre) hc hn
+
+theorem acceptsWithin_of_window (e : Elem α β σ) (Inv : σ → Prop) (h0 : Inv e.init)
+    (hstep : ∀ s i, Inv s → Inv (e.step s i)) {C : In α → Prop} (K : Nat)
+    (hwin : ∀ s ins, Inv s → (∀ i ∈ ins, C i) → ins.length = K → 1 ≤ (e.accepted s ins).length) :
+    AcceptsWithinC e C K :=
+  fun pre ins hc n hn =>
+    accepted_ge_of_window e Inv hstep C K hwin n _ ins (inv_reachable e Inv h0 hstep pre) hc hn
 
 /-- A delivery is a handshake: `DeliversWithin` implies `ProgressWithin` with the same bound. -/
-theorem DeliversWithin.progress {e : Elem α β σ} {K : Nat} (h : DeliversWithin e K) : ProgressWithin e K :=
+theorem DeliversWithinC.progress {e : Elem α β σ} {C : In α → Prop} {K : Nat} (h : DeliversWithinC e C K) :
+    ProgressWithinC e C K :=
   fun pre ins hc n hn => Nat.le_trans (h pre ins hc n hn) (Nat.le_add_left _ _)
+
+/-- So is a sink handshake. -/
+theorem AcceptsWithinC.progress {e : Elem α β σ} {C : In α → Prop} {K : Nat} (h : AcceptsWithinC e C K) :
+    ProgressWithinC e C K :=
+  fun pre ins hc n hn => Nat.le_trans (h pre ins hc n hn) (Nat.le_add_right _ _)
+
+/-- Delivery bound from a measure: `K' = B + 1`. -/
+theorem deliversWithin_of_measure (e : Elem α β σ) (Inv : σ → Prop) (h0 : Inv e.init)
+    (hstep : ∀ s i, Inv s → Inv (e.step s i)) {C : In α → Prop} (μ : σ → Nat) (B : Nat)
+    (hB : ∀ s, Inv s → μ s ≤ B)
+    (hdec : ∀ s i, Inv s → C i → 1 ≤ (e.delNow s i).length ∨ μ (e.step s i) < μ s) :
+    DeliversWithinC e C (B + 1) :=
+  deliversWithin_of_window e Inv h0 hstep (B + 1)
+    (fun s ins hs hc hl => del_window_of_measure e Inv hstep C μ B hB hdec s ins hs hc hl)
+
+theorem acceptsWithin_of_measure (e : Elem α β σ) (Inv : σ → Prop) (h0 : Inv e.init)
+    (hstep : ∀ s i, Inv s → Inv (e.step s i)) {C : In α → Prop} (μ : σ → Nat) (B : Nat)
+    (hB : ∀ s, Inv s → μ s ≤ B)
+    (hdec : ∀ s i, Inv s → C i → 1 ≤ (e.accNow s i).length ∨ μ (e.step s i) < μ s) :
+    AcceptsWithinC e C (B + 1) :=
+  acceptsWithin_of_window e Inv h0 hstep (B + 1)
+    (fun s ins hs hc hl => acc_window_of_measure e Inv hstep C μ B hB hdec s ins hs hc hl)
+
+/-! ### Stability under an extra, explicit assumption on the environment
+
+  `Shifter` reads its `shift` input combinationally on the output side, `Gate`/`Multiplexer`/`Demultiplexer` route
+  by `enable`/`sel`: these elements are *designed* to change their source when that control input changes.  Their
+  contract theorem carries the assumption `X s i i'` on each cycle boundary (typically: "the control input is
+  held while a token waits at the source"). -/
+
+def StableInFromX (e : Elem α β σ) (X : σ → In α → In α → Prop) : σ → In α → List (In α) → Prop
+  | _, _, [] => True
+  | s, i, i' :: is => HoldsIn i i' (e.out s i).ready ∧ X s i i' ∧ StableInFromX e X (e.step s i) i' is
+
+def StableInX (e : Elem α β σ) (X : σ → In α → In α → Prop) (s : σ) : List (In α) → Prop
+  | [] => True
+  | i :: is => StableInFromX e X s i is
+
+structure StepStableX (e : Elem α β σ) (Inv : σ → Prop) (X : σ → In α → In α → Prop) : Prop where
+  inv_step : ∀ s i, Inv s → Inv (e.step s i)
+  hold : ∀ s i i', Inv s → HoldsIn i i' (e.out s i).ready → X s i i' →
+    HoldsOut (e.out s i) (e.out (e.step s i) i') i
+
+theorem stableFromX_of_step {e : Elem α β σ} {Inv : σ → Prop} {X : σ → In α → In α → Prop}
+    (h : StepStableX e Inv X) :
+    ∀ (ins : List (In α)) (s : σ) (i : In α), Inv s → StableInFromX e X s i ins → StableOutFrom e s i ins := by
+  intro ins
+  induction ins with
+  | nil => intro s i _ _; trivial
+  | cons i' is ih =>
+    intro s i hs hin
+    exact ⟨h.hold s i i' hs hin.1 hin.2.1, ih (e.step s i) i' (h.inv_step s i hs) hin.2.2⟩
+
+theorem stableX_of_step {e : Elem α β σ} {Inv : σ → Prop} {X : σ → In α → In α → Prop}
+    (h : StepStableX e Inv X) (s : σ) (hs : Inv s) (ins : List (In α)) (hin : StableInX e X s ins) :
+    StableOut e s ins := by
+  cases ins with
+  | nil => trivial
+  | cons i is => exact stableFromX_of_step h is s i hs hin
+
+/-- Contract under the extra boundary assumption `X`, from every reachable state. -/
+def KeepsContractX (e : Elem α β σ) (X : σ → In α → In α → Prop) : Prop :=
+  ∀ pre ins : List (In α), StableInX e X (e.runFrom e.init pre) ins → StableOut e (e.runFrom e.init pre) ins
+
+theorem keepsContractX_of_stepStable {e : Elem α β σ} {Inv : σ → Prop} {X : σ → In α → In α → Prop}
+    (h : StepStableX e Inv X) (h0 : Inv e.init) : KeepsContractX e X :=
+  fun pre ins hin => stableX_of_step h _ (inv_reachable e Inv h0 h.inv_step pre) ins hin
+
+/-- Change of invariant (pointwise equivalent). -/
+theorem StepStable.congr {e : Elem α β σ} {Inv Inv' : σ → Prop} (h : StepStable e Inv)
+    (hiff : ∀ s, Inv' s ↔ Inv s) : StepStable e Inv' where
+  inv_step s i hs := (hiff _).2 (h.inv_step s i ((hiff s).1 hs))
+  hold s i i' hs hin := h.hold s i i' ((hiff s).1 hs) hin
 
 end Elem
 end Litex.Stream
